@@ -294,6 +294,8 @@ type Search struct {
 	GoalReturn func(r *ssa.Return, pred *ssa.BasicBlock) bool
 	// GoalInstr: evaluated at every instruction reached before a Cut. True = violation.
 	GoalInstr func(in ssa.Instruction) bool
+	// CutEdge: traversing this CFG edge satisfies the obligation (the edge is not followed).
+	CutEdge func(from, to *ssa.BasicBlock) bool
 }
 
 type st struct{ b, pred *ssa.BasicBlock }
@@ -337,6 +339,9 @@ func (s *Search) Run(start *ssa.BasicBlock, startIdx int, pred *ssa.BasicBlock) 
 			continue
 		}
 		for _, nx := range s.feasible(cur) {
+			if s.CutEdge != nil && s.CutEdge(cur.b, nx) {
+				continue
+			}
 			n := st{nx, cur.b}
 			if !seen[n] {
 				seen[n] = true
@@ -489,6 +494,32 @@ func (p *Prog) SuccessBlocks(c ssa.Value) []*ssa.BasicBlock {
 	default:
 		if IsErrorType(c.Type()) {
 			errVals = append(errVals, c)
+		}
+	}
+	// a named result / captured variable: `err = f(); if err != nil` stores the value into a cell and
+	// tests a reload of it — reloads in the same block after the store alias the value
+	for _, ev := range append([]ssa.Value(nil), errVals...) {
+		for _, r := range *ev.Referrers() {
+			st, ok := r.(*ssa.Store)
+			if !ok || st.Val != ev {
+				continue
+			}
+			after := false
+			for _, in := range st.Block().Instrs {
+				if in == ssa.Instruction(st) {
+					after = true
+					continue
+				}
+				if !after {
+					continue
+				}
+				if s2, ok := in.(*ssa.Store); ok && s2.Addr == st.Addr {
+					break
+				}
+				if u, ok := in.(*ssa.UnOp); ok && u.Op == token.MUL && u.X == st.Addr {
+					errVals = append(errVals, u)
+				}
+			}
 		}
 	}
 	var out []*ssa.BasicBlock
